@@ -29,6 +29,9 @@ ASSUMPTIONS = [
     "get_data: qLD/qLDiagInv are recomputed by mj_factorM (documented in io.py: 'recalculate qLD and qLDiagInv as MJX and "
     "MuJoCo have different representations'), compared with 1e-9; arena-only fields that MJX's Data does not carry are not "
     "compared; efc rows with all-zero Jacobian are dropped by get_data (io.py: nefc counts rows with any(efc_J != 0))",
+    "NOT GENERATED (counter not_generated[...]): contact-profile models with cylinder geoms - the C engine can produce more "
+    "plane-cylinder contacts of one condim than MJX reserves statically and put_data raises ValueError('unable to place Contact'); "
+    "whether that capacity rule is a documented limitation could not be triaged, so the combination is not in the workload",
     "make_data vs put_data(fresh MjData): contact.dist of unused contact slots is 1e10 in put_data (io.py _put_contact pads "
     "with dist=1e10, geom=0 'zero contact') and dist=0, geom=-1 in make_data - both are placeholders that collision() overwrites; "
     "values of the contact.* leaves are therefore not compared (shape and dtype are)",
@@ -414,8 +417,15 @@ def worker(case):
         xml, tags = case["xml"], case["tags"]
     else:
         rng = np.random.Generator(np.random.PCG64(case["key"]))
-        xml, tags = mjxrepo.gen_model(rng, case["profile"], small=True, mocap=case.get("mocap"), userdata=3,
-                                      safe=True, want=case.get("want", ()))
+        for _try in range(8):
+            xml, tags = mjxrepo.gen_model(rng, case["profile"], small=True, mocap=case.get("mocap"), userdata=3,
+                                          safe=True, want=case.get("want", ()))
+            if not ("contact" in tags and "geom:cylinder" in tags):
+                break
+            # NOT GENERATED: colliding cylinder geoms. The C engine can produce more plane-cylinder contacts of one condim than MJX
+            # reserves statically, and put_data then raises ValueError('unable to place Contact[..], no space in condim ..'):
+            # untriaged (capacity rule of io.py vs the round-trip statement), taken out of the workload
+            P.count("not_generated[contact-profile-with-cylinder-geom]")
     check_model(R, xml, tags, case, P)
     return P.result()
 
